@@ -182,6 +182,14 @@ let () =
              let cfg = parse_config () in
              let (rt, outs) = M.rstep !state (M.RAddRealm (idx, cfg)) in
              state := rt; emit outs
+           | "rtick" ->
+             (* time passes in ONE realm only: a realm created at virtual time T
+                is brought to the router's clock (the model has no router-level
+                clock; init_realm starts at 0) *)
+             let idx = next_n () in
+             let ms = next_n () in
+             let (rt, outs) = M.rstep !state (M.ROp (idx, M.OTick ms)) in
+             state := rt; emit outs
            | ("tryrm" | "rmrealm") as cmd ->
              let idx = next_n () in
              let (rt, outs) = M.rstep !state (M.RRemoveRealm idx) in
